@@ -4,7 +4,7 @@ import json, os, subprocess
 VERIF = os.path.dirname(os.path.dirname(os.path.abspath(__file__)))
 
 CHECKS = {
- "C01": dict(technique="TLC model checking of Weave (all trees/paths, small bounds) + TLC trace validation of recorded merges and outputs",
+ "C01": dict(technique="TLC model checking of Weave (all trees/paths, small bounds) and of the end-to-end model (MC_Aligner: Integrity over all small inputs; twin rejected) + TLC trace validation of recorded merges and outputs",
              text="MC_Weave: every tree shape over 3-4 leaves and every valid path keeps the integrity invariants; WeaveTrace: every recorded merge, the final object, every written file and the array API result of hundreds of generated executions are checked by TLC against the same invariants (row count/order/name, equal length, degap = input, no all-gap column).",
              note="exhaustive only for the model bounds; real executions are sampled (generated families, exhaustive tiny inputs); hooks and file tokenizer trusted", ref="DESIGN 5.C01"),
  "C10": dict(technique="TLC model checking of Weave!MergePreserves + TLC trace validation of every recorded merge",
@@ -16,7 +16,7 @@ CHECKS = {
  "C14": dict(technique="TLC lemmas over Alphabet.tla, TLC validation of the real code tables, TLC-validated relational traces (gap pattern equality) over case and T/U masks",
              text="Alphabet.tla states the residue classes; AlphabetTrace checks the five real 128-entry tables for case and T/U blindness (complete); RelateTrace checks, for all 2^k case masks and T/U masks of tiny inputs and seeded masks of generated inputs of every type, that the gap pattern equals the base run's and output letters equal the variant's input letters.",
              note="tables complete; end-to-end masks exhaustive only for tiny inputs, sampled otherwise", ref="DESIGN 5.C14"),
- "C02": dict(technique="TLC model checking of an OpenMP task model (all schedules, small bounds) + TLC trace validation of fork/join order and data-flow digests on real runs + TLC-validated output identity across configurations",
+ "C02": dict(technique="TLC model checking of an OpenMP task model (all schedules, small bounds) and of the k-means recursion (Bisect: termination, partition; twin does not terminate) + TLC trace validation of fork/join order, data-flow digests and k-means splits on real runs + TLC-validated output identity across configurations",
              text="TaskTree.tla models spawn/taskwait/tied-task scheduling; TLC explores every schedule of kalign's three fork/join islands for 2-3 threads (twins without taskwait must fail). TaskTreeTrace checks on every recorded execution that no merge begins before both children ended, forward and backward ended before the meetup, restarts ended before the reduction, and that each reader saw exactly the digest its producers wrote. RelateTrace requires identical output across thread counts 1..64, nesting levels, wait policies, CPU sets, perturbed schedules, and the build without OpenMP.",
              note="real schedules are sampled; only the model is explored exhaustively; hook order relies on one mutex-protected sequence counter", ref="DESIGN 5.C02"),
  "C03": dict(technique="TLC-validated relational traces: column-membership equality over permutations of the input records",
@@ -25,7 +25,7 @@ CHECKS = {
  "C06": dict(technique="TLC model checking of writer o reader = identity on all small alignments (MC_RoundTrip) + TLC trace validation of write/read round trips and conversions against the given alignment (RoundTripTrace)",
              text="For synthetic alignments (the generator's rows are the reference) and alignments produced by runs, every file kalign writes (3 formats) is read back and every read-back copy is converted into 3 formats and read back again; TLC requires row count, order, names, residues and gap positions to equal the reference (12 comparisons per alignment), including widths at multiples of 60, names up to 200 characters, and gap runs at the reader's 512-residue growth boundaries.",
              note="sampled alignments; conversion = read + finalise + write (what kalign_msa_compare does internally); one known finding (gap-free alignments cannot be converted)", ref="DESIGN 5.C06"),
- "C08": dict(technique="TLC-validated relational traces (Relate!NoDash) over identical-sequence inputs",
+ "C08": dict(technique="TLC model checking of the end-to-end and profile models (MC_Aligner CopiesFlat, MC_Progressive CopiesMergeFlat: copies merge without gaps for every small input / group size) + TLC-validated relational traces (Relate!NoDash) over identical-sequence inputs",
              text="k copies of one string for many k (up to 500), lengths (1..5000 in thorough), compositions (uniform, single letter incl. all-N/all-X/all-B/all-Z/all-U, IUPAC mixtures, mixed case), admissible types and thread counts; TLC requires a successful run without any gap character.",
              note="sampled grid; the scoring-model certificate (DiagonalUnique) is part of C07's Scoring module", ref="DESIGN 5.C08"),
  "C11": dict(technique="TLC model checking of the blocked bit-vector algorithm (generic word width) against the column DP + TLC-computed edit-distance oracle on the real kernels' return values",
@@ -46,13 +46,13 @@ CHECKS = {
  "C04": dict(technique="TLC-validated relational traces (Relate!SameRows) over re-presentations generated from one record set + line-level reader model (Reader/ReaderTrace) on every presentation file",
              text="Each set of named sequences is presented as bare FASTA (reference) and as FASTA at other widths, unwrapped with blank lines, aligned FASTA with random gap insertions up to 20 gap characters per residue and three gap symbols, Clustal and MSF variants, splits over 2..n files in mixed formats, alignments wider than 8192 columns unwrapped, and through the command line (-i, positional, stdin, stdin + file); TLC requires identical names and rows in every member of the group.",
              note="presentations are generated inputs (sampled); the reader itself is bound by the relation, not by a line-level reader model", ref="DESIGN 5.C04"),
- "C05": dict(technique="TLC-enumerated input files and option vectors replayed under sanitizers and valgrind; TLC validation of the outcome protocol (ProtoTrace, CliTrace), of the line-level reader model (Reader/ReaderTrace) and of alphabet totality (AlphabetTrace)",
+ "C05": dict(technique="TLC-enumerated input files and option vectors replayed under sanitizers and valgrind; TLC validation of the outcome protocol (ProtoTrace, CliTrace), of the line-level reader model (Reader/ReaderTrace) and of alphabet totality (AlphabetTrace); termination of the k-means recursion model-checked as a liveness property (Bisect) and its recorded splits validated (BisectTrace)",
              text="The specification decides (a) that every letter has a class in the real code tables, (b) the outcome protocol of read/run/write on every file of up to 2 lines over 27 line kinds and thousands of longer ones enumerated by TLC from FileGen.tla (success implies a well-formed object and a valid alignment of what was read; otherwise a failure status), (c) the protocol of the command line over option vectors enumerated from Cli.tla (exit 0 implies a valid alignment, failure implies non-zero exit and a message, must-fail and must-succeed classes). Memory clauses are observed on those executions by ASan, UBSan and LeakSanitizer.",
              note="memory safety is observed by sanitizers on generated executions, not decided by the model (DESIGN section 8); leaks are judged on the success path only; timeouts are confirmed at 4x", ref="DESIGN 5.C05"),
  "C07": dict(technique="TLC model checking: certificate DPs against brute force (MC_Scoring), controller (MC_Hirschberg), and C07 itself on the constructive kernel models (MC_Kernel, MC_Progressive: certified optimum returned for sequences and groups; twins rejected) + TLC-computed uniqueness certificates on planted cases (ScoringTrace) + every recorded split re-derived from the model (HirschTrace, KernelTrace, ProgressiveTrace)",
              text="Scoring.tla states kalign's affine scoring model with the end-gap charge as an interval; TLC shows the forward/backward fold DPs and the through-scores equal brute force over all alignments of tiny sequences. For every planted case TLC computes, with the parameters the kernels actually read, whether the planted alignment beats every other alignment under every admissible end-gap charge by more than the tie-break and float slack; only then kalign must return exactly that alignment (pairs and groups of 1..3 identical copies, all types, user penalties, both sides of the 500-column switch).",
              note="cases without a certificate are skipped and counted; the interval model makes certification conservative for terminal overhangs", ref="DESIGN 5.C07"),
- "C16": dict(technique="TLC enumeration of API histories with dependency chains (Api.tla) + TLC comparison of each call's result with its chain replayed in a fresh process (ApiTrace) + LeakSanitizer",
+ "C16": dict(technique="TLC enumeration of API histories with dependency chains (Api.tla) + TLC comparison of each call's result with its chain replayed in a fresh process (ApiTrace), long histories under both the sanitizer's and the plain allocator + LeakSanitizer",
              text="Api.tla models the object life cycle; TLC enumerates every well-formed history of 3 (quick) or 4 calls over 2 handles, 2 inputs, 2 parameter sets and 2 formats together with the chain of calls each result may depend on. Each history runs in one process; every call's observable result (return code, projected object, rows, score, file bytes) must equal the result of its chain in a fresh process. Seeded long histories and a sample of the enumerated ones run under LeakSanitizer with all objects freed.",
              note="histories bounded by MaxCalls; the projection of struct msa is trusted", ref="DESIGN 5.C16"),
 }
